@@ -661,7 +661,7 @@ Fixpoint addWatch (fuel : nat) (s : st) (name : string) (flags : N) (listDir : b
                 match v_readlink (fs_of s) name with
                 | inl e => (s, RErr (EOs e))
                 | inr l =>
-                    let l := if is_abs l then l else pjoin (dir name) l in
+                    let l := clean (if is_abs l then l else pjoin (dir name) l) in     (* link = filepath.Clean(link) *)
                     match tb_byPath (T s) l with
                     | Some _ => (set_T (fun t => tb_addLink t name) s, ROk l)
                     | None =>
